@@ -92,6 +92,17 @@ for (width, slotbits, compact, maxel) in ((12, 8, 0, 60000), (12, 8, 1, 250), (3
          lentype="uint8_t" if maxel <= 255 else "uint16_t" if maxel <= 65535 else "uint32_t" if maxel <= 4294967295 else "uint64_t", maxel=maxel)
     idx += 1
 
+# value type wider than the width needs (PACK_STORAGE_VALUE_TYPE is a documented override; the tree itself uses it for its 13-
+# and 14-bit arrays): the byte-multiple widths 8 / 16 / 32, where "one value == one VALUE_TYPE object" shortcuts tempt, and others
+VT = {16: "uint16_t", 32: "uint32_t", 64: "uint64_t"}
+for (width, slotbits, compact, vt) in ((8, 8, 0, 16), (8, 32, 0, 32), (8, 64, 0, 64), (16, 16, 0, 32), (16, 64, 0, 64), (32, 32, 0, 64),
+                                       (32, 64, 0, 64), (5, 8, 0, 64), (12, 16, 0, 64), (24, 32, 0, 64), (8, 8, 1, 32), (16, 8, 1, 64)):
+    assert width <= slotbits + gcd(width, slotbits)
+    defs = ["PACK_STORAGE_VALUE_TYPE %s" % VT[vt]]
+    defs.append("PACK_STORAGE_COMPACT" if compact else "PACK_STORAGE_SLOT_STORAGE_TYPE %s" % SLOT[slotbits])
+    emit(idx, width, slotbits, compact, defs, "wide value type: w%d slot%d%s value u%d" % (width, slotbits, " compact" if compact else "", vt))
+    idx += 1
+
 # Include order matters for a header that is instantiated by re-inclusion: whatever one instantiation leaves defined
 # is inherited by the next. Narrow-length-type instances (which set PACK_MAX_ELEMENTS) therefore come FIRST and are then
 # interleaved with the default ones, so that every kind of instance is followed by instances relying on the defaults.
